@@ -561,7 +561,7 @@ func ruleRenderUnconditional(c *Ctx) {
 		if fi == nil || fi.Decl.Body == nil {
 			return true
 		}
-		// it appends to sw.filled
+		// it appends to sw.filled, itself or in a helper that does so on every path
 		grows := false
 		ast.Inspect(fi.Decl.Body, func(m ast.Node) bool {
 			if as, ok := m.(*ast.AssignStmt); ok {
@@ -569,6 +569,11 @@ func ruleRenderUnconditional(c *Ctx) {
 					if selField(fi.Info(), l) == filled {
 						grows = true
 					}
+				}
+			}
+			if call, ok := m.(*ast.CallExpr); ok {
+				if g := callee(fi.Info(), call); g != nil && g != f && mustFill(c, g, filled) {
+					grows = true
 				}
 			}
 			return true
@@ -587,6 +592,11 @@ func ruleRenderUnconditional(c *Ctx) {
 	isFill := func(n ast.Node) bool {
 		hit := false
 		inspectNoLit(n, func(m ast.Node) bool {
+			if call, ok := m.(*ast.CallExpr); ok {
+				if g := callee(info, call); g != nil && g != push.Obj && mustFill(c, g, filled) {
+					hit = true
+				}
+			}
 			if as, ok := m.(*ast.AssignStmt); ok {
 				for i, l := range as.Lhs {
 					if selField(info, l) == filled && i < len(as.Rhs) {
@@ -647,4 +657,59 @@ func ruleRenderUnconditional(c *Ctx) {
 	c.checkPath(!skip, funcName(push.Obj)+"→sw.filled", push.Decl.Pos(), w,
 		"for an object that is not tested again and an output that is not a count, every return is preceded by the append to sw.filled",
 		"the function can return without handing the object to sw.filled although the fence has already classified the event (noTest) — depending on what the long-lived writer of the fence accumulated from earlier events, a later event is rendered as nothing and fenceMatch drops it: the fence goes silent")
+}
+
+var mustFillCache = map[*types.Func]bool{}
+
+// mustFill: every path through f to a return passes an append to the given slice field.
+func mustFill(c *Ctx, f *types.Func, field *types.Var) bool {
+	if v, ok := mustFillCache[f]; ok {
+		return v
+	}
+	mustFillCache[f] = false
+	fi := c.FuncOf(f)
+	if fi == nil || fi.Decl.Body == nil {
+		return false
+	}
+	info := fi.Info()
+	isApp := func(n ast.Node) bool {
+		hit := false
+		inspectNoLit(n, func(m ast.Node) bool {
+			if as, ok := m.(*ast.AssignStmt); ok {
+				for i, l := range as.Lhs {
+					if selField(info, l) == field && i < len(as.Rhs) {
+						if call, ok := ast.Unparen(as.Rhs[i]).(*ast.CallExpr); ok {
+							if id, ok := ast.Unparen(call.Fun).(*ast.Ident); ok && id.Name == "append" {
+								hit = true
+							}
+						}
+					}
+				}
+			}
+			return true
+		})
+		return hit
+	}
+	any := false
+	ast.Inspect(fi.Decl.Body, func(n ast.Node) bool {
+		if isApp(n) {
+			any = true
+		}
+		return !any
+	})
+	if !any {
+		return false
+	}
+	fg := newFlowGraph(info, fi.Decl.Body)
+	skip, _ := fg.Reach(PathQuery{
+		Target: func(l Loc) bool {
+			if _, ok := l.Node.(*ast.ReturnStmt); ok {
+				return true
+			}
+			return len(l.Block.Succs) == 0 && l.Idx == len(l.Block.Nodes)-1
+		},
+		Avoid: func(l Loc) bool { return isApp(l.Block.Nodes[l.Idx]) },
+	})
+	mustFillCache[f] = !skip
+	return !skip
 }
